@@ -1041,6 +1041,24 @@ pub fn persist_alphabet(p: &Program) -> Vec<Op> {
     a
 }
 
+/// C16: two creators whose structs are read back by two readers, and a third creator used by a
+/// short-lived handle before the readers start.
+pub fn readers_creating_structs() -> Program {
+    Program {
+        name: "readers-creating-structs".into(),
+        cells: vec![(1, Dur::Low), (2, Dur::Low)],
+        nodes: vec![
+            NodeDef::new(Kind::Mk, Ex::Mk(vec![ent(k(1), cell(0), cell(1), k(5), 0)])),
+            NodeDef::new(Kind::Ev, Ex::add(Ex::Fld(0, 0, 1), Ex::Fld(0, 0, 2))),
+            NodeDef::new(Kind::Mk, Ex::Mk(vec![ent(k(1), k(7), k(3), cell(0), 0)])),
+            NodeDef::new(Kind::Ev, Ex::add(Ex::Fld(2, 0, 1), Ex::Fld(2, 0, 2))),
+            NodeDef::new(Kind::Mk, Ex::Mk(vec![ent(k(1), k(9), k(9), k(9), 0)])),
+        ],
+        ext: vec![0],
+        root0: None,
+    }
+}
+
 /// C19: the real program for a call graph of the protocol model (`pexplore::systems`): every
 /// query is a fixpoint function that joins the results of its callees with one bit of its own.
 pub fn model_graph(name: &str, calls: &[Vec<u8>]) -> Program {
